@@ -9,7 +9,7 @@
     The model is tied to the code by trace validation (props/c10.py, Workers/Checker.v). *)
 From Coq Require Import ZArith List Bool Arith.
 From Texel Require Import Workers.Workers Workers.WorkersLemmas Workers.WorkersInv
-  Workers.WorkersTheorems Workers.WorkersLive Workers.WorkersLiveProofs Workers.WorkersExamples
+  Workers.WorkersTheorems Workers.WorkersLive Workers.WorkersLiveProofs Workers.WorkersFair Workers.WorkersExamples
   Workers.Checker Workers.WorkersRestart Workers.Race Workers.Access Workers.HandshakeProofs.
 Import ListNotations.
 
@@ -66,23 +66,37 @@ Theorem C10_no_lost_wakeup : forall N parent, tree_ok N parent -> forall s, reac
 Proof. exact no_lost_wakeup. Qed.
 Print Assumptions C10_no_lost_wakeup.
 
-(** progress, proved part: while the engine thread collects stop acknowledgements the system is
+(** progress, safety half: while the engine thread collects stop acknowledgements the system is
     never stuck — some thread can take a transition that changes the state (no deadlock, no
     lost acknowledgement), in every reachable state *)
-Theorem C10_stop_terminates_partial : forall N parent, tree_ok N parent ->
+Theorem C10_stop_no_deadlock : forall N parent, tree_ok N parent ->
   forall s, reach N parent s -> mphase (pc (th s 0)) = Some PhStop ->
   exists t a s', t <= N /\ step N parent s t a = Some s' /\ s' <> s.
 Proof. exact stop_no_deadlock. Qed.
-Print Assumptions C10_stop_terminates_partial.
+Print Assumptions C10_stop_no_deadlock.
 
-(** progress, full statement (not proved: the decreasing measure over outstanding acks, queued
-    commands and running helpers is not constructed): on every weakly fair infinite execution
-    a stop round ends with the engine thread idle again *)
-Definition C10_stop_terminates_statement : Prop :=
-  forall N parent, tree_ok N parent ->
+(** progress: on every weakly fair infinite execution (WorkersLive: every step is a transition
+    of a thread or of the UCI thread, which may issue go / stop / ponderhit / setoption for ever;
+    [weakly_fair]: no thread stays able to make progress for ever without moving) a stop round
+    ends — the engine thread passes its stop-ack barrier and is idle again — for every number
+    of helpers and every communicator tree.  Proof (Workers/WorkersMeasure*.v, WorkersFair.v): a
+    measure over outstanding acks, queued commands (weighted by the sub-tree they still have to
+    visit), helpers still in search and notifier flags decreases with every state-changing
+    helper transition and every engine-thread transition except its idle wake-up cycle, and is
+    untouched by the UCI thread *)
+Theorem C10_stop_terminates : forall N parent, tree_ok N parent ->
   forall e : nat -> state, reach N parent (e 0) -> execution N parent e -> weakly_fair N parent e ->
   forall i, mphase (pc (th (e i) 0)) = Some PhStop ->
   exists k, i <= k /\ master_idle (e k).
+Proof. exact stop_terminates. Qed.
+Print Assumptions C10_stop_terminates.
+
+(** the fairness assumption above is the constructive form of the textbook one *)
+Theorem C10_weak_fairness_form : forall N parent e, weakly_fair N parent e ->
+  forall t i, t <= N -> (forall k, i <= k -> can_progress N parent (e k) t) ->
+  exists k a, i <= k /\ step N parent (e k) t a = Some (e (S k)) /\ e (S k) <> e k.
+Proof. exact weakly_fair_impl. Qed.
+Print Assumptions C10_weak_fairness_form.
 
 (** "setoption Threads between searches": when the trace checker's executable quiescence test
     passes, rebuilding the worker tree ([reconf]: surviving threads keep their state, new ones
